@@ -82,6 +82,30 @@ def radonTorchRect (img : List (List R)) (thetas : Option (List R)) : List (List
 def radonSkRect (img : List (List R)) (thetas : Option (List R)) : List (List R) :=
   radonSkRectAcc (px img) img.length (img.headD []).length thetas
 
+/-! ## the output tensor and its writes
+
+`radon_images = torch.zeros((B, N_angles, N))`, then `for i, angle in enumerate(theta):
+radon_images[:, i, :] = projection` — one preallocated zero tensor, one slice assignment per
+angle, across the whole batch at once. -/
+
+/-- `sampled.squeeze(1).sum(dim=1)` for one image and one angle: the row `[N]` that is written -/
+def projRow (img : List (List R)) (θ : R) : List R :=
+  (List.range img.length).map fun x => radonTorchAt (px img) img.length θ x
+
+/-- radon_torch on one image as the code computes it: zero tensor `[A][N]`, row `i` overwritten
+in the `i`-th iteration -/
+def radonTorchLoop (img : List (List R)) (thetas : List R) : List (List R) :=
+  let init : List (List R) := List.replicate thetas.length (List.replicate img.length Num.zero)
+  thetas.zipIdx.foldl (fun out p => out.set p.2 (projRow img p.1)) init
+
+/-- the batched call: zero tensor `[B][A][N]`, `radon_images[:, i, :] = projection` writes row
+`i` of every batch item in the `i`-th iteration -/
+def radonTorchBatchLoop (imgs : List (List (List R))) (thetas : List R) : List (List (List R)) :=
+  let init : List (List (List R)) :=
+    imgs.map fun img => List.replicate thetas.length (List.replicate img.length Num.zero)
+  thetas.zipIdx.foldl
+    (fun out p => List.zipWith (fun o img => o.set p.2 (projRow img p.1)) out imgs) init
+
 /-! ## iradon_torch with its validation -/
 
 /-- does `theta.shape[0] != A` / `len(theta) != radon_image.shape[1]` hold? (`theta=None`: never) -/
